@@ -94,6 +94,15 @@ theorem isotope_independent [Field α] [DecidableEq α] (am nm f1 f2 : Atom → 
       = xraySld am sf s.atoms (some (densityOfNatural am nm s.atoms nd)) :=
   xraySld_isotope_independent am nm f1 f2 sf s ρ nd h h' hf1 hf2 hnm hm hm' hn
 
+/-- the SLD of a bare element (`Xray.sld`) is the SLD of its one-atom compound at the element's
+    density, the number density being `N_A·ρ/m` (density.py; C06) -/
+theorem element_sld_eq_one_atom_compound [Field α] [DecidableEq α] (am : Atom → α)
+    (sf : Atom → Option (Option α × Option α)) (a : Atom) (f1 f2 rho : α)
+    (hsf : sf a = some (some f1, some f2)) (hm : am a ≠ 0) :
+    xraySld am sf [(a, 1)] (some rho)
+      = .ok ((elementSld (some f1, some f2) (some (PtGen.avogadro_number * (rho / am a)))).getD (none, none)) :=
+  elementSld_eq_compound am sf a f1 f2 rho hsf hm
+
 /-! ## energy ↔ wavelength, index of refraction -/
 
 /-- `energy=` and `wavelength=` are inverse conversions -/
@@ -155,6 +164,19 @@ theorem f0_limit_is_electron_count (r : PtGen.F0Row) (hr : r ∈ PtGen.f0Rows) (
 
 end
 
+/-! ## which table entry an atom or ion resolves to (`fxrayatstol`) -/
+
+/-- an element symbol (letters only) with charge `q ≠ 0` is looked up under
+    `<symbol><digits of |q|, reversed><sign>` – the `Fe2+`, `O1-` convention of the table – and a
+    neutral atom under its bare symbol; so no atom or ion reaches an entry whose name is not of that
+    form (the valence entries `Cval`, `Siva`) -/
+theorem resolve_symbol_charge (sym : List Char) (h : ∀ c ∈ sym, c ∉ stripSet) (q : Int) :
+    (q ≠ 0 → resolveSymbol sym (some q)
+      = sym ++ (Nat.toDigits 10 q.natAbs).reverse ++ [if q < 0 then '-' else '+']) ∧
+    resolveSymbol sym (some 0) = sym := by
+  refine ⟨fun hq => ?_, resolveSymbol_neutral sym h⟩
+  rw [resolveSymbol_ion sym q hq, rstripSet_id sym h]
+
 /-! ## non-vacuity -/
 
 -- a three-node table with a NaN first node, queried inside, on a node, next to the NaN node
@@ -178,5 +200,9 @@ example : xraySld (α := ℚ) (fun a => if a.z = 1 then 1 else 16) (fun _ => som
 -- a named row exists, and an unnamed one (valence entry) exists
 example : ∃ r ∈ PtGen.f0Rows, r.named = true ∧ r.q = 2 := by decide +kernel
 example : ∃ r ∈ PtGen.f0Rows, r.named = false := by decide +kernel
+-- symbol resolution on concrete ions
+example : resolveSymbol ['F', 'e'] (some 2) = ['F', 'e', '2', '+'] := by decide +kernel
+example : resolveSymbol ['O'] (some (-1)) = ['O', '1', '-'] := by decide +kernel
+example : resolveSymbol ['N', 'a', '+'] none = ['N', 'a', '1', '+'] := by decide +kernel
 
 end PtVerif.C05
